@@ -131,13 +131,16 @@ func (f *function) diffEnv() (bool, string, diff.ValueDiff, error) {
 		return false, "target has never been run", nil, nil
 	}
 
-	eq, err := starlark.EqualDepth(f.oldEnv, f.newEnv, 1000)
-	if err != nil {
-		return false, "", nil, fmt.Errorf("comparing function environments: %w", err)
-	}
 	// Values that compare equal may still differ in a way the function can observe: 1 == 1.0
 	// and 0.0 == -0.0, but they print differently. Such environments are not the same.
 	sameRepr := func(x, y starlark.Value) bool { return x.String() == y.String() }
+	eq, err := starlark.EqualDepth(f.oldEnv, f.newEnv, 1000)
+	cyclic := err != nil
+	if cyclic {
+		// Data that contains itself cannot be compared (or diffed) structurally. How it is
+		// written shows every element once, with "..." where it recurs.
+		eq = sameRepr(f.oldEnv, f.newEnv)
+	}
 	if eq && sameRepr(f.oldEnv, f.newEnv) {
 		return true, "", nil, nil
 	}
@@ -153,10 +156,13 @@ func (f *function) diffEnv() (bool, string, diff.ValueDiff, error) {
 
 	d, err := diff.DiffDepth(f.oldEnv, f.newEnv, 1000)
 	if err != nil {
-		return false, "", nil, fmt.Errorf("diffing environments: %w", err)
+		if !cyclic {
+			return false, "", nil, fmt.Errorf("diffing environments: %w", err)
+		}
+		d = nil
 	}
 	md, ok := d.(*diff.MappingDiff)
-	if !ok && !eq {
+	if !ok && !eq && !cyclic {
 		panic(fmt.Errorf("expected a diff in unequal environments"))
 	}
 
@@ -177,6 +183,8 @@ func (f *function) diffEnv() (bool, string, diff.ValueDiff, error) {
 
 	var reason string
 	switch len(reasons) {
+	case 0:
+		reason = "values"
 	case 1:
 		reason = reasons[0]
 	case 2:
